@@ -125,6 +125,15 @@ pub fn conformance(spec: &FileSpec) -> Result<(usize, bool), (String, String)> {
     if layout.entries != entries {
         return Err(("format".into(), "independent decoder recovers different entries than inserted".into()));
     }
+    // the byte stream is a function of configuration and entries only: a sink that accepts short,
+    // interrupted writes must receive the same conforming file (sampled: the larger files)
+    if layout.blocks.len() > cfg.index_levels as usize + 3 && entries.len() <= 64 {
+        let short = crate::common::write_file_short(cfg, &entries).map_err(|e| ("write".to_string(), format!("through a short-writing sink: {e}")))?;
+        if short != bytes {
+            decode_file(&short, iv).map_err(|e| ("format".to_string(), format!("file received by a sink accepting short and interrupted writes: {e}")))?;
+            return Err(("format".into(), "a sink accepting short and interrupted writes received different bytes".into()));
+        }
+    }
     let model = Model::new(entries);
     let probes = if model.len() <= 64 { model.class_probes() } else { crate::qcheck::reduced_reps(&model, 12) };
     // oracle 2a: frozen 0.4.7 reader on current-writer bytes
